@@ -665,6 +665,16 @@ func Shape(owner bool, hasTTL, hasClass, ttlFirst bool) string {
 	return s + "none"
 }
 
+// sixShapes maps a line shape to the numbering of the comment in ZoneParser.Next.
+var sixShapes = map[string]string{
+	"noowner/none":    "s0-type-only",
+	"owner/none":      "s1-owner-type",
+	"owner/ttl":       "s2-owner-ttl-type",
+	"owner/ttl-class": "s3-owner-ttl-class-type",
+	"owner/class":     "s4-owner-class-type",
+	"owner/class-ttl": "s5-owner-class-ttl-type",
+}
+
 func (r *renderer) record(it *Item, facts []RecFact) (string, error) {
 	owner := r.pickName(it.Owner, facts, func(f *RecFact) wm.Name { return f.AbsOwner }, true)
 	hasTTL, ttl := r.ttlChoice(it.HasTTL, it.TTL, facts, func(f *RecFact) (uint32, bool) { return f.EffTTL, f.AbsOwner != nil })
@@ -705,7 +715,12 @@ func (r *renderer) record(it *Item, facts []RecFact) (string, error) {
 	if len(facts) > 0 && facts[0].DollarTTL {
 		dollar = "1"
 	}
-	r.use("shape:" + Shape(owner.Kind != Prev, hasTTL, hasClass, ttlFirst) + "/dttl" + dollar)
+	sh := Shape(owner.Kind != Prev, hasTTL, hasClass, ttlFirst)
+	r.use("shape:" + sh + "/dttl" + dollar)
+	if c, ok := sixShapes[sh]; ok {
+		// the six line beginnings listed in ZoneParser.Next x ($TTL seen or not): the 12-cell matrix
+		r.use("cell:" + c + "/dttl" + dollar)
+	}
 
 	parens := !r.o.Plain && !r.o.NoParens && r.p(30)
 	if parens {
